@@ -25,6 +25,9 @@ TARGETS = {
     'short-27': b'/'.join(b'p%d' % i for i in range(27)),          # fits the record by total size; many two-byte headers
     'short-45': b'/'.join(b'q%d' % i for i in range(45)),
     'many-long': b'/'.join(bytes([97 + i % 26]) * (20 + i) for i in range(30)),
+    # beyond one continuation block (2048 bytes): cannot be recorded, must be refused (K73)
+    'c3000': b'w' * 3000,
+    'many-700': b'/'.join([b'ab'] * 700),
 }
 
 
@@ -94,13 +97,26 @@ class RRNew(Base):
         return Call([self.first, a.name, a.mode, a.target, self.version, self.reloc == 'child', self.reloc == 'relocated', self.reloc == 'parent',
                      a.skip, self.curr, {}, 1700000000.0], self_obj=a.self)
 
+    def payload(self):
+        return self.name_len + len(TARGETS[self.tgt] or b'')
+
     def expected_covers(self):
-        return ('raise:PyCdlibInternalError',) if self.curr + 28 > 254 else ('return',)
+        if self.curr + 28 > 254:
+            return ('raise:PyCdlibInternalError',)
+        if self.payload() >= 2300:
+            return ('raise:PyCdlibInvalidInput',)
+        return ('return',) if self.payload() <= 1900 else ()
 
     def raises(self, c, a):
         # the CE entry (28 bytes) itself must fit the record; otherwise the request is refused (as an internal error)
         if self.curr + 28 > 254:
             return {'PyCdlibInternalError': None}
+        # continuation areas are not chained: what needs more than one 2048-byte block cannot be recorded and is refused (K73);
+        # name + target of 2300 bytes or more never fit, up to 1900 bytes they always do, in between the post-condition decides
+        if self.payload() >= 2300:
+            return {'PyCdlibInvalidInput': True}
+        if self.payload() > 1900:
+            return {'PyCdlibInvalidInput': None}
         return {}
 
     def post(self, c, a, out):
@@ -119,6 +135,7 @@ class RRNew(Base):
         a.problems = problems
         cl['system-use-areas-well-formed'] = And(not problems, *sym)
         cl['continuation-entry-iff-something-spilled'] = (cetuple is not None) == (len(ce_items) > 0)
+        cl['continuation-area-fits-one-block'] = len(ce_items) <= 2048
         if cetuple is not None:
             cl['continuation-entry-declares-the-spilled-length'] = cetuple[2] == len(ce_items)
         cl['name-recovered'] = Eq(V.mk_bytes(rr.name_items), a.name)
@@ -163,6 +180,13 @@ def sweep(tier):
                 for cu in currs:
                     for n in (3, 30):
                         out.append(dict(version=v, name_len=n, curr=cu, tgt=t))
+            for n in (1900, 2048, 2100, 2110, 2125, 2300, 3000):
+                out.append(dict(version=v, name_len=n, curr=34))
+                out.append(dict(version=v, name_len=n, curr=48, xa=True))
+            for t in ('c3000', 'many-700'):
+                out.append(dict(version=v, name_len=4, curr=34, tgt=t))
+            out.append(dict(version=v, name_len=1000, curr=34, tgt='c600'))
+            out.append(dict(version=v, name_len=1500, curr=34, tgt='c600'))
             out.append(dict(version=v, name_len=0, curr=34, first=True))
             out.append(dict(version=v, name_len=0, curr=48, first=True, xa=True))
             for rl in ('child', 'relocated', 'parent'):
@@ -188,6 +212,10 @@ def sweep(tier):
     for v in vers:
         out.append(dict(version=v, name_len=4, curr=228))
         out.append(dict(version=v, name_len=4, curr=254))
+        for n in (1900, 2048, 2100, 2110, 2125, 2300, 3000):
+            out.append(dict(version=v, name_len=n, curr=34))
+        for t in ('c3000', 'many-700'):
+            out.append(dict(version=v, name_len=4, curr=34, tgt=t))
     seen, uniq = set(), []
     for d in out:
         k = tuple(sorted(d.items()))
